@@ -71,7 +71,70 @@ pub fn history_of(out: &ConcOut) -> Vec<HEnt> {
 pub fn lin_judge(prog: &Prog, out: &ConcOut) -> Result<u64, String> {
     let _ = prog;
     let ents = history_of(out);
-    lin::check_history(&ents, |k| out.init.get(&k).map(|e| e.1))
+    let ov = lin::check_history(&ents, |k| out.init.get(&k).map(|e| e.1))?;
+    pair_judge(out, true)?;
+    Ok(ov)
+}
+
+/// Entry coherence: a key instance and a value handed out together (get_key_value, remove_entry,
+/// the arguments of a compute_if_present closure or retain predicate, an `iter()` item) must have
+/// been the key and the value of ONE entry.  Every value id is written once; the key instance of
+/// the entry it was written into follows from that write's own result: an insert / try_insert that
+/// found the key absent stores its own key, an insert that replaced `old` or a compute that was
+/// shown `seen` writes into the entry of `old` / `seen` ("the key is left unchanged").  Copies of a
+/// key made by the map (resize, tree conversion) keep the origin.
+pub fn pair_judge(out: &ConcOut, with_iters: bool) -> Result<(), String> {
+    use std::collections::HashMap as StdMap;
+    let own: StdMap<u64, u32> = out.recs.key_of.iter().copied().collect();
+    let mut origin_of: StdMap<u64, u32> = out.init.values().map(|e| (e.1, e.0)).collect();
+    // value -> the value whose entry it was written into
+    let mut parent: StdMap<u64, u64> = StdMap::new();
+    for e in &out.recs.ops {
+        match &e.op {
+            HOp::Insert { new, ret: None } | HOp::TryInsert { new, ret: Ok(()) } => {
+                if let Some(o) = own.get(new) {
+                    origin_of.insert(*new, *o);
+                }
+            }
+            HOp::Insert { new, ret: Some(old) } => {
+                parent.insert(*new, *old);
+            }
+            HOp::Compute { seen: Some(s), out: Some(o), .. } => {
+                parent.insert(*o, *s);
+            }
+            _ => {}
+        }
+    }
+    let resolve = |mut v: u64| -> Option<u32> {
+        for _ in 0..10_000 {
+            if let Some(o) = origin_of.get(&v) {
+                return Some(*o);
+            }
+            v = *parent.get(&v)?;
+        }
+        None
+    };
+    let check = |origin: u32, vid: u64, what: &str| -> Result<(), String> {
+        match resolve(vid) {
+            // a value whose write is not in the history (cannot happen for ids the harness made)
+            None => Ok(()),
+            Some(o) if o == origin => Ok(()),
+            Some(o) => Err(format!("{} handed out key instance #{} together with value {}, which was written into the entry of key instance #{}: that pair was never one entry of the map", what, origin, vid, o)),
+        }
+    };
+    for (o, v, what) in &out.recs.pairs {
+        check(*o, *v, what)?;
+    }
+    if with_iters {
+        for it in &out.recs.iters {
+            if it.kind == 0 {
+                for (_, o, v, _) in &it.yields {
+                    check(*o, *v, "iter()")?;
+                }
+            }
+        }
+    }
+    Ok(())
 }
 
 fn crossed(out: &ConcOut) -> (bool, bool) {
@@ -89,6 +152,7 @@ fn std_classes(out: &ConcOut, overlapping: u64) -> Vec<(&'static str, u64)> {
         ("schedules_with_init_spin", out.spun as u64),
         ("scheduler_steps", out.steps),
         ("references_verified_at_guard_release", out.recs.held_checked),
+        ("linearizability_searches_abandoned_as_too_large", lin::ABANDONED.swap(0, std::sync::atomic::Ordering::Relaxed)),
     ]
 }
 
@@ -201,8 +265,8 @@ impl ConcCheck {
 
 pub fn budget_for(ctx_tier: Tier, seed: u64) -> Budget {
     match ctx_tier {
-        Tier::Quick => Budget { single: 400, double: 60, coarse2: 200, tapes: 24, tape_seed: seed, triple: 0 },
-        Tier::Thorough => Budget { single: 4000, double: 2500, coarse2: 2000, tapes: 200, tape_seed: seed, triple: 0 },
+        Tier::Quick => Budget { single: 400, double: 60, coarse2: 200, tapes: 24, tape_seed: seed, triple: 0, stagger: 0 },
+        Tier::Thorough => Budget { single: 4000, double: 2500, coarse2: 2000, tapes: 200, tape_seed: seed, triple: 0, stagger: 0 },
     }
 }
 
@@ -210,8 +274,8 @@ pub fn budget_for(ctx_tier: Tier, seed: u64) -> Budget {
 /// over the control words
 pub fn helpers_budget(tier: Tier, seed: u64) -> Budget {
     match tier {
-        Tier::Quick => Budget { single: 120, double: 0, coarse2: 60, tapes: 12, tape_seed: seed, triple: 120 },
-        Tier::Thorough => Budget { single: 600, double: 200, coarse2: 400, tapes: 60, tape_seed: seed, triple: 1500 },
+        Tier::Quick => Budget { single: 120, double: 0, coarse2: 60, tapes: 12, tape_seed: seed, triple: 120, stagger: 0 },
+        Tier::Thorough => Budget { single: 600, double: 200, coarse2: 400, tapes: 60, tape_seed: seed, triple: 1500, stagger: 0 },
     }
 }
 
@@ -244,18 +308,27 @@ pub const C01H: ConcCheck = ConcCheck { sub: "lin-helpers", mix: Mix::Helpers, m
 /// explainable: every result names a value that was current, nothing is resurrected)
 pub const C01R: ConcCheck = ConcCheck { sub: "lin-clear", mix: Mix::Readers, max_threads: 3, max_ops: 3, ..C01 };
 pub const C01T: ConcCheck = ConcCheck { sub: "lin-treemove", mix: Mix::TreeMove, max_threads: 3, max_ops: 3, ..C01 };
+/// 1-129 threads registered in (or queued on) one crowded bin at the same time, then a writer
+pub const C01W: ConcCheck = ConcCheck { sub: "lin-crowd", mix: Mix::Crowd, max_threads: 130, max_ops: 3, ..C01 };
+pub const CROWD_WORKERS: usize = 132;
+pub fn crowd_budget(tier: Tier, seed: u64) -> Budget {
+    Budget { single: 0, double: 0, coarse2: 0, tapes: 0, tape_seed: seed, triple: 0, stagger: match tier { Tier::Quick => 120, Tier::Thorough => 900 } }
+}
 
 fn c01_shard(ctx: &Ctx, out: &mut ShardOut) {
     let pool = Pool::new();
     let n = ctx.share(ctx.by_tier(1600, 24_000)) as u32;
     C01.run(ctx, &pool, 1, n, &budget_for(ctx.tier, ctx.shard_seed(77)), out);
-    let lb = Budget { single: 0, double: 0, coarse2: 0, tapes: ctx.by_tier(24, 200) as usize, tape_seed: ctx.shard_seed(92), triple: 0 };
+    let lb = Budget { single: 0, double: 0, coarse2: 0, tapes: ctx.by_tier(24, 200) as usize, tape_seed: ctx.shard_seed(92), triple: 0, stagger: 0 };
     C01L.run(ctx, &pool, 2, ctx.share(ctx.by_tier(128, 4_000)) as u32, &lb, out);
     C01M.run(ctx, &pool, 3, ctx.share(ctx.by_tier(160, 5_000)) as u32, &lb, out);
     C01H.run(ctx, &pool, 5, ctx.share(ctx.by_tier(160, 3_000)) as u32, &helpers_budget(ctx.tier, ctx.shard_seed(94)), out);
     C01T.run(ctx, &pool, 6, ctx.share(ctx.by_tier(200, 4_000)) as u32, &budget_for(ctx.tier, ctx.shard_seed(95)), out);
     C01R.run(ctx, &pool, 7, ctx.share(ctx.by_tier(320, 5_000)) as u32, &budget_for(ctx.tier, ctx.shard_seed(89)), out);
     c01_set_run(ctx, &pool, out);
+    drop(pool);
+    let big = Pool::with_workers(CROWD_WORKERS);
+    C01W.run(ctx, &big, 13, ctx.share(ctx.by_tier(160, 3_000)) as u32, &crowd_budget(ctx.tier, ctx.shard_seed(96)), out);
 }
 
 /// concurrent `HashSet` programs through all four facades (setconc.rs)
@@ -317,10 +390,10 @@ pub fn c01_set_replay(pool: &Pool, case: &Value) -> Result<(), CaseFail> {
 fn c01_replay(sub: &str, case: &Value) -> Result<(), CaseFail> {
     let pool = Pool::new();
     if sub == "lin-long" {
-        return C01L.replay(&pool, case, &Budget { single: 0, double: 0, coarse2: 0, tapes: 200, tape_seed: 1, triple: 0 });
+        return C01L.replay(&pool, case, &Budget { single: 0, double: 0, coarse2: 0, tapes: 200, tape_seed: 1, triple: 0, stagger: 0 });
     }
     if sub == "lin-long-mixed" {
-        return C01M.replay(&pool, case, &Budget { single: 0, double: 0, coarse2: 0, tapes: 200, tape_seed: 1, triple: 0 });
+        return C01M.replay(&pool, case, &Budget { single: 0, double: 0, coarse2: 0, tapes: 200, tape_seed: 1, triple: 0, stagger: 0 });
     }
     if sub == "lin-set" {
         return c01_set_replay(&pool, case);
@@ -333,6 +406,9 @@ fn c01_replay(sub: &str, case: &Value) -> Result<(), CaseFail> {
     }
     if sub == "lin-treemove" {
         return C01T.replay(&pool, case, &budget_for(Tier::Thorough, 1));
+    }
+    if sub == "lin-crowd" {
+        return C01W.replay(&Pool::with_workers(CROWD_WORKERS), case, &crowd_budget(Tier::Thorough, 1));
     }
     C01.replay(&pool, case, &budget_for(Tier::Thorough, 1))
 }
@@ -352,6 +428,7 @@ pub const C05A: ConcCheck = ConcCheck { asked: "C05", sub: "conc-retain", mix: M
 pub const C05D: ConcCheck = ConcCheck { asked: "C05", sub: "conc-drain", mix: Mix::Drain, max_threads: 3, max_ops: 3, opts: C01.opts, judge: c05c_judge, mk_probe: NO_PROBE };
 pub const C05K: ConcCheck = ConcCheck { asked: "C05", sub: "conc-perkey", mix: Mix::PerKey, max_threads: 3, max_ops: 3, opts: C01.opts, judge: c05c_judge, mk_probe: NO_PROBE };
 pub const C05U: ConcCheck = ConcCheck { asked: "C05", sub: "conc-compute", mix: Mix::Compute, max_threads: 3, max_ops: 3, opts: C01.opts, judge: c05c_judge, mk_probe: NO_PROBE };
+pub const C05W: ConcCheck = ConcCheck { asked: "C05", sub: "conc-crowd", mix: Mix::Crowd, max_threads: 130, max_ops: 3, opts: C01.opts, judge: c05c_judge, mk_probe: NO_PROBE };
 pub const C05_EXTRA: [&ConcCheck; 4] = [&C05A, &C05D, &C05K, &C05U];
 pub const C05L: ConcCheck = ConcCheck { asked: "C05", sub: "conc-long", mix: Mix::Long, max_threads: 8, max_ops: 12, opts: C01.opts, judge: c05c_judge, mk_probe: NO_PROBE };
 
@@ -383,6 +460,7 @@ pub const C04D: ConcCheck = ConcCheck { sub: "conc-drain", mix: Mix::Drain, ..C0
 pub const C04H: ConcCheck = ConcCheck { sub: "conc-helpers", mix: Mix::Helpers, max_threads: 4, ..C04C };
 pub const C04M: ConcCheck = ConcCheck { sub: "conc-treemove", mix: Mix::TreeMove, ..C04C };
 pub const C04U: ConcCheck = ConcCheck { sub: "conc-compute", mix: Mix::Compute, ..C04C };
+pub const C04W: ConcCheck = ConcCheck { sub: "conc-crowd", mix: Mix::Crowd, max_threads: 130, ..C04C };
 pub const C04_ALL: [&ConcCheck; 8] = [&C04C, &C04R, &C04T, &C04Z, &C04D, &C04M, &C04U, &C04H];
 
 /* ------------------------------- C08 ------------------------------- */
@@ -437,7 +515,7 @@ pub const C08T: ConcCheck = ConcCheck { sub: "rmw-treemove", mix: Mix::TreeMove,
 pub const C08H: ConcCheck = ConcCheck { sub: "rmw-helpers", mix: Mix::Helpers, max_threads: 4, ..C08 };
 pub const C08Z: ConcCheck = ConcCheck { sub: "rmw-resize", mix: Mix::Resize, ..C08 };
 pub const C08M: ConcCheck = ConcCheck { sub: "rmw-long-mixed", mix: Mix::LongMixed, max_threads: 6, max_ops: 10, ..C08 };
-const C08_LONG: Budget = Budget { single: 0, double: 0, coarse2: 0, tapes: 200, tape_seed: 1, triple: 0 };
+const C08_LONG: Budget = Budget { single: 0, double: 0, coarse2: 0, tapes: 200, tape_seed: 1, triple: 0, stagger: 0 };
 fn c08_shard(ctx: &Ctx, out: &mut ShardOut) {
     let pool = Pool::new();
     let n = ctx.share(ctx.by_tier(1500, 20_000)) as u32;
@@ -561,6 +639,8 @@ pub const C11T: ConcCheck = ConcCheck { sub: "term-treemove", mix: Mix::TreeMove
 pub const C11A: ConcCheck = ConcCheck { sub: "term-retain", mix: Mix::Retain, ..C11 };
 pub const C11D: ConcCheck = ConcCheck { sub: "term-drain", mix: Mix::Drain, ..C11 };
 pub const C11U: ConcCheck = ConcCheck { sub: "term-compute", mix: Mix::Compute, ..C11 };
+/// up to 129 threads registered in / queued on one bin (tree-bin readers, bin-lock waiters) and a writer
+pub const C11W: ConcCheck = ConcCheck { sub: "term-crowd", mix: Mix::Crowd, max_threads: 130, ..C11 };
 
 fn c11_shard(ctx: &Ctx, out: &mut ShardOut) {
     let pool = Pool::new();
@@ -568,13 +648,15 @@ fn c11_shard(ctx: &Ctx, out: &mut ShardOut) {
     C11.run(ctx, &pool, 11, ctx.share(ctx.by_tier(500, 6_000)) as u32, &b, out);
     C11B.run(ctx, &pool, 12, ctx.share(ctx.by_tier(500, 6_000)) as u32, &b, out);
     C11C.run(ctx, &pool, 15, ctx.share(ctx.by_tier(300, 4_000)) as u32, &b, out);
-    let lb = Budget { single: 0, double: 0, coarse2: 0, tapes: ctx.by_tier(24, 200) as usize, tape_seed: ctx.shard_seed(93), triple: 0 };
+    let lb = Budget { single: 0, double: 0, coarse2: 0, tapes: ctx.by_tier(24, 200) as usize, tape_seed: ctx.shard_seed(93), triple: 0, stagger: 0 };
     C11L.run(ctx, &pool, 19, ctx.share(ctx.by_tier(96, 3_000)) as u32, &lb, out);
     C11T.run(ctx, &pool, 20, ctx.share(ctx.by_tier(300, 4_000)) as u32, &b, out);
     C11A.run(ctx, &pool, 22, ctx.share(ctx.by_tier(160, 3_000)) as u32, &b, out);
     C11D.run(ctx, &pool, 23, ctx.share(ctx.by_tier(96, 2_000)) as u32, &b, out);
     C11U.run(ctx, &pool, 24, ctx.share(ctx.by_tier(160, 3_000)) as u32, &b, out);
     C11H.run(ctx, &pool, 21, ctx.share(ctx.by_tier(128, 2_000)) as u32, &helpers_budget(ctx.tier, ctx.shard_seed(96)), out);
+    drop(pool);
+    C11W.run(ctx, &Pool::with_workers(CROWD_WORKERS), 25, ctx.share(ctx.by_tier(160, 3_000)) as u32, &crowd_budget(ctx.tier, ctx.shard_seed(97)), out);
 }
 fn c11_replay(sub: &str, case: &Value) -> Result<(), CaseFail> {
     let pool = Pool::new();
@@ -587,7 +669,8 @@ fn c11_replay(sub: &str, case: &Value) -> Result<(), CaseFail> {
         "term-drain" => C11D.replay(&pool, case, &b),
         "term-compute" => C11U.replay(&pool, case, &b),
         "term-helpers" => C11H.replay(&pool, case, &helpers_budget(Tier::Thorough, 1)),
-        "term-long" => C11L.replay(&pool, case, &Budget { single: 0, double: 0, coarse2: 0, tapes: 200, tape_seed: 1, triple: 0 }),
+        "term-crowd" => C11W.replay(&Pool::with_workers(CROWD_WORKERS), case, &crowd_budget(Tier::Thorough, 1)),
+        "term-long" => C11L.replay(&pool, case, &Budget { single: 0, double: 0, coarse2: 0, tapes: 200, tape_seed: 1, triple: 0, stagger: 0 }),
         _ => C11.replay(&pool, case, &b),
     }
 }
